@@ -85,6 +85,22 @@ CLAIMED["C09"] = ("ovf-codec", "exploration",
   "udp-codec-stress: every thread owns a client UDP session codec and a server codec (all Shadowsocks ciphers, with and without users) and performs request/reply exchanges whose plaintext, address and acceptance must equal the run-alone result, while all threads hammer the process-wide cipher cache. tcp-shared-context: threads run whole request/response round trips with codecs cloned from one shared client context and one shared server context (all protocols). interleaved-steps: 2..6 (quick) / 2..10 (thorough) TCP flows and Shadowsocks UDP sessions of generated users share one server context, one datagram codec and per user one client context; a generated schedule decides which session makes the next call (client encodes a write, server reads a generated segment, server encodes an answer, client reads a segment); each session must observe exactly its own target, upload and answer, and a session that deviates is re-run alone with the same calls before the deviation is attributed to sharing. concurrent-replay: K threads present the same valid 2022 request to one server context through a barrier; exactly one acceptance. many-flows: 8..32 (quick) / 16..64 (thorough) concurrent generated TCP flows with per-flow keystreams on 2..16 worker threads through one client/server pair, and generated UDP histories of 4 applications x 3 targets; every flow must be byte-exact and every datagram owned correctly. The thread-level sub-checks explore the interleavings the machine produces (the harness does not own the thread schedule; no sanitizer build is used); interleaved-steps owns the order of codec calls but not what happens inside one call.",
   "Trusted: Instant timestamps only label overlap, never decide; the oracles of C01/C02/C10 are reused for the system and replay parts.", "DESIGN.md 5/C09, 9.4")
 
+
+# additions of the third build session, appended to the level text
+EXTRA = {
+ "C01": " Further scenario families on one combination per transport in the quick tier and on all 50 in the thorough tier: duplex-bulk (the application writes 14 MiB before it reads anything while the target streams 9 MiB from the start), late first byte (the application is silent for 6.5 s / 11 s between the local handshake and its first byte), answers during an upload to an application with a small receive buffer.",
+ "C02": " session-owner: a reference client's 2022 session whose datagram is re-sent as a copy from another socket; the (late) replies must stay with the client that opened the session.",
+ "C05": " The tampered stream reaches the decoder one frame region per read, whole in one read, or with regions coalesced in pairs.",
+ "C07": " Further input shapes: valid streams with well-formed multi-byte UTF-8 sequences spliced in, and HTTP targets with host names of 200..1000 bytes made of multi-byte characters in every alignment.",
+ "C08": " The catalogue also holds 640 failed handshakes in a row on either listener, 200 silent connections held open on the server's listener, descriptor starvation walked through a flow on freshly started processes, and junk to the outbound sockets of nine client bindings.",
+ "C09": " In interleaved-steps 2022 UDP sessions may be driven by the reference client with a chosen session id shared between users; the server must attribute every datagram to the user whose key sealed it.",
+ "C10": " Also: 2022 requests split behind the fixed header across two reads with the clock moving in between, VMess response headers of 0..8 bytes, and the datagram rules probed on sessions that are already in use.",
+ "C11": " The history generator has in-order ids, runs of up to 140 ids and ring-alias ids (an earlier id plus one or two laps of 8192); in the system half part of the history arrives from a second source address.",
+ "C12": " Also: replies from a restarted server session inside udp-history, freshness across six threads of one process, per-datagram salts and XChaCha nonces.",
+ "C15": " Further endings: a one-shot upload towards a target that comes for it 12.5 s later, and the server / the client process killed with flows open (QUIC is given its 30 s idle time-out plus margin).",
+ "C16": " refusals also covers shadowsocks entries without any cipher field.",
+}
+
 PENDING = {}
 
 # sub-checks that are also libFuzzer targets (harness/src/props/mod.rs fuzz_plans)
@@ -106,6 +122,7 @@ def main():
         i = p['id']
         if i in CLAIMED:
             eng, cat, tech, text, note, ref = CLAIMED[i]
+            text += EXTRA.get(i, "")
             if i in FUZZ:
                 tech += "; coverage-guided tier: libFuzzer (AddressSanitizer, debug assertions, overflow checks) drives the same generators and oracles through a byte-stream bridge (" + FUZZ[i] + "), fixed-run campaigns in the thorough tier, committed corpus replayed in every run"
                 text += " Coverage-guided tier (thorough): the fuzzer's bytes are the random stream of the sub-check's own proptest strategy (vendored proptest, PassThrough generator), so every libFuzzer input is a generated case judged by the same oracle; a failing input is shrunk through the strategy and reported with a replay file; time-outs / out-of-memory end the run as inconclusive (exit 2)."
